@@ -25,7 +25,10 @@ Forms ==
     <<"0", "=", "a0">>, <<"-", "1", "=", "a1">>, <<"1", ".", "5", "=", "a2">>,
     <<"2", "=", "b", "SP">>, <<"1", "=", "SP", "c", "NL">>, <<"x", "=", "d", "NL">>,
     <<"a", "NL", "SP", "NL", "b">>, <<"SP", "NL", "c">>, <<"d", "NL", "SP">>,                               \* a line of blanks only inside / at the edge of a value
-    <<"n", "=", "e", "NL", "SP", "SP", "NL", "f">> }                      \* blanks AFTER the value of a (numeric-)named argument         \* names a number parser accepts but that are no positive integers: strings
+    <<"n", "=", "e", "NL", "SP", "SP", "NL", "f">>,
+    \* characters inside a NAME that some normalisation might fold: underscore, hyphen, dot, upper case, inner blank
+    <<"a", "_", "b", "=", "x1">>, <<"SP", "l", "_", "1", "SP", "=", "SP", "y1">>, <<"A", "-", "b", ".", "c", "=", "x2">>,
+    <<"k", "SP", "m", "=", "x3">> }                      \* blanks AFTER the value of a (numeric-)named argument         \* names a number parser accepts but that are no positive integers: strings
 
 \* a reduced alphabet for the deeper bound (one form of every kind, the ones whose interaction matters:
 \* positionals with and without blanks, a named one, numeric names 1..3 in both spellings, a name > 1000)
@@ -34,7 +37,10 @@ FormsR ==
     <<"1", "=", "f">>, <<"2", "=", "g">>, <<"SP", "3", "SP", "=", "SP", "h">>, <<"0", "1", "=", "i">>,
     <<"1", "0", "0", "1", "=", "m">>, <<"0", "=", "a0">>, <<"2", "=", "b", "SP">> }
 
-Lists == UNION { [1..n -> Forms] : n \in 0..MaxLen }
+\* lists of four arguments leave out the name-character forms (kept for lengths up to 3: the universe would triple)
+NameCharForms == { <<"a", "_", "b", "=", "x1">>, <<"SP", "l", "_", "1", "SP", "=", "SP", "y1">>, <<"A", "-", "b", ".", "c", "=", "x2">>,
+                   <<"k", "SP", "m", "=", "x3">> }
+Lists == UNION { [1..n -> IF n <= 3 THEN Forms ELSE Forms \ NameCharForms] : n \in 0..MaxLen }
 ListsR == { l \in [1..5 -> FormsR] : TRUE }
 
 VARIABLE args
